@@ -172,3 +172,48 @@ def states_over(atoms, fls, values=(0.0, 1.0, 2.0), all_fluents=(), max_states=N
         fluents = {k: 0.0 for k in all_fluents}
         fluents.update(dict(zip(fls, vs)))
         yield frozenset(fs), fluents
+
+
+# ---- a small executable scenario: domain + problem + all short plans (C04, C09, C10, C15, C16) ------
+SCEN_ACTIONS = [
+    ("mv", "?x - a ?y - a", "(and (p ?x) (not (p ?y)))", "(and (not (p ?x)) (p ?y) (increase (c) 1))"),
+    ("mk", "?x - a", "(and (not (q ?x)))", "(and (q ?x) (when (and (p ?x)) (g)) (increase (f ?x) 2))"),
+    ("cl", "", "(and (g))", "(and (not (g)) (forall (?z - a) (when (and (q ?z)) (not (q ?z)))) (assign (c) 0))"),
+    ("dd", "?x - a ?y - a", "(and (>= (c) 1))", "(and (increase (d ?x ?y) 1) (decrease (c) 1))"),
+]
+SCEN_PARAMS = {"mv": 2, "mk": 1, "cl": 0, "dd": 2}
+
+
+def scenario_domain_text():
+    return domain_text(SCEN_ACTIONS)
+
+
+def scenario_problem_text(init_extra=()):
+    objs = "o1 - a o2 - b"
+    init = ["(p o1)", "(= (c) 0)", "(= (f o1) 0)", "(= (f o2) 0)", "(= (d o1 o1) 0)", "(= (d o1 o2) 0)", "(= (d o2 o1) 0)", "(= (d o2 o2) 0)"]
+    init += list(init_extra)
+    return f"(define (problem scen) (:domain gen) (:objects {objs}) (:init {' '.join(init)}) (:goal (and (q o2) (>= (c) 1))))"
+
+
+def scenario_calls():
+    out = []
+    for name, n in SCEN_PARAMS.items():
+        for args in itertools.product(list(OBJECTS), repeat=n):
+            out.append((name, args))
+    return out
+
+
+def plans(max_len, rnd=None, cap=None):
+    calls = scenario_calls()
+    allp = []
+    for n in range(0, max_len + 1):
+        allp.extend(itertools.product(calls, repeat=n))
+    if cap and len(allp) > cap and rnd is not None:
+        allp = [allp[0]] + rnd.sample(allp[1:], cap - 1)
+    return allp
+
+
+def call_text(call, upper=False):
+    name, args = call
+    t = "(" + " ".join((name,) + tuple(args)) + ")"
+    return t.upper() if upper else t
